@@ -34,7 +34,8 @@ FromParams(ix) == [b |-> "FromParams", indices |-> ix]
 Base == {QubitT, USizeT, BoolT, UnitT, UnitSumT(0), UnitSumT(3), Var(0, "C"), Var(1, "A"), RowVar(0, "A"), RowVar(1, "C"),
          AliasT("al", "A"), AliasT("ac", "C"), AliasT(" a b ", "C"), OpaqueT(" e ", "Id ", <<StrArg("\tx ")>>, "C"), OpaqueT("e1", "Lin", <<>>, "A"), OpaqueT("e1", "Cpy", <<>>, "C")}
 (* elements used inside compound types: one per bound-relevant class *)
-Elems == {QubitT, BoolT, Var(1, "A"), Var(1, "C"), OpaqueT("e1", "Cpy", <<>>, "C"), OpaqueT("e1", "Cpy", <<>>, "A"), USizeT}
+Elems == {QubitT, BoolT, Var(1, "A"), Var(1, "C"), OpaqueT("e1", "Cpy", <<>>, "C"), OpaqueT("e1", "Cpy", <<>>, "A"), USizeT,
+          RowVar(0, "A")}                           \* a row variable inside a row counts with its declared bound
    \* Var(1,C)/Var(1,A) and the two opaque "Cpy" print alike but differ in bound: any caching keyed on display form shows up
 
 BSpecs == {Explicit("C"), Explicit("A"), FromParams(<<>>), FromParams(<<0>>), FromParams(<<1>>), FromParams(<<0, 1>>),
